@@ -351,7 +351,7 @@ fn main() {
     if a.get(1).map(|s| s.as_str()) == Some("decode-one") {
         install_panic_hook();
         install_log_sink();
-        refcodec::runaway::start_watchdog(a[4].clone(), std::time::Duration::from_secs(10), 2 << 20);
+        refcodec::runaway::start_watchdog(a[4].clone(), std::time::Duration::from_secs(10), 1 << 20);
         let bytes = refcodec::unhex(&a[3]).unwrap();
         let _ = Sut::run(&mut refcodec::runaway::Watched(Child), &a[2], &bytes);
         return;
@@ -375,7 +375,7 @@ fn main() {
     let plan = Plan { per_type_random, per_field_alone: 4, all_present: 4, mutation_bases, max_perms: 120, big: false };
     // a decode that does not come back / allocates without bound ends this process with exit code 3 and the
     // operations in flight in <out>.runaway (the parent runs each of them again, alone)
-    refcodec::runaway::start_watchdog(format!("{out}.runaway"), std::time::Duration::from_secs(30), 6 << 20);
+    refcodec::runaway::start_watchdog(format!("{out}.runaway"), std::time::Duration::from_secs(30), 2 << 20);
     let make: &(dyn Fn() -> Box<dyn Sut> + Sync) = &|| Box::new(refcodec::runaway::Watched(Child));
     run_types(threads, seed, &mut report, &schema, &keys, prop, id, &plan, make);
     presence_floor(&mut report, &schema, &keys);
@@ -462,7 +462,7 @@ pub fn run(ctx: &Ctx) -> i32 {
 /// The crate of a given (seed, k, n_structs) is identical for every id, so that it is built once.
 /// The generated program ended itself because an operation did not come back or memory ran away (exit code 3): run every
 /// operation that was in flight again, alone in a fresh process.  One that again does not come back within 10 s or grows
-/// beyond 2 GiB is a violation (no value, no error); if none does, the run is inconclusive.
+/// beyond 1 GiB is a violation (no value, no error); if none does, the run is inconclusive.
 fn runaway_verdict(report: &mut Report, id: &str, k: usize, out: &Path, bin: Option<PathBuf>) {
     let path = PathBuf::from(format!("{}.runaway", out.display()));
     let text = std::fs::read_to_string(&path).unwrap_or_default();
